@@ -258,6 +258,11 @@ impl<S: Read + Write> Client<S> {
     pub fn shutdown(&mut self) -> RdpResult<()> {
         self.transport.shutdown()
     }
+
+    /// Number of bytes already received by the link layer
+    pub fn buffered_read_size(&self) -> RdpResult<usize> {
+        self.transport.buffered_read_size()
+    }
 }
 
 #[cfg(test)]
